@@ -204,13 +204,30 @@ class Decimal(SimpleModel):
 
     @staticmethod
     def validate_native(cls, value):
-        return SimpleModel.validate_native(cls, value) and (
-            value is None or (
-                value >  cls.Attributes.gt and
-                value >= cls.Attributes.ge and
-                value <  cls.Attributes.lt and
-                value <= cls.Attributes.le
-            ))
+        if not SimpleModel.validate_native(cls, value):
+            return False
+
+        if value is None:
+            return True
+
+        attrs = cls.Attributes
+        neg_inf = decimal.Decimal('-inf')
+        pos_inf = decimal.Decimal('inf')
+
+        if value != value:
+            # nan can't be ordered (comparing it with a Decimal bound raises
+            # InvalidOperation), so it's only acceptable when no range is set
+            return (attrs.gt == neg_inf and attrs.ge == neg_inf and
+                    attrs.lt == pos_inf and attrs.le == pos_inf)
+
+        # the exclusive bounds are infinite when not set, which must not rule
+        # out the infinities themselves.
+        return (
+            (attrs.gt == neg_inf or value > attrs.gt) and
+            value >= attrs.ge and
+            (attrs.lt == pos_inf or value < attrs.lt) and
+            value <= attrs.le
+        )
 
 
 class Double(Decimal):
